@@ -25,6 +25,10 @@ pvars == <<inp, win, qls, cand, keptQ, keptR, unp, out, pc>>
 InitWith(in) ==
     /\ inp = in /\ win = <<>> /\ qls = <<>> /\ cand = <<>> /\ keptQ = <<>> /\ keptR = <<>>
     /\ unp = <<>> /\ out = <<>> /\ pc = "window"
+\* the same as an action (used when the module is composed into AlignCore)
+StartWith(in) ==
+    /\ inp' = in /\ win' = <<>> /\ qls' = <<>> /\ cand' = <<>> /\ keptQ' = <<>> /\ keptR' = <<>>
+    /\ unp' = <<>> /\ out' = <<>> /\ pc' = "window"
 
 \* dropwhile(x < start - D) then takewhile(x <= end + D) over the ascending reference labels
 DropWhileLess(ls, bound) ==
